@@ -193,3 +193,15 @@ RAW['C05'] = [
     In (tn g) (kidsT w rd) /\\ contains_transitive_task_dependency w rd g = Some true""",
    'intros gen wck ord RC OC P sf always HS HWF HWO. exact (static_class_readers_require_writer RC OC P always gen wck ord sf HS HWF HWO).'),
 ]
+
+RAW['C02'] = [
+  ('C02_no_execution_beyond_from_scratch',
+   'the last clause, as a theorem (for every checker of the class, not only exact ones): after any history of top-down sessions and external changes, every task the incremental session executes is also executed by the from-scratch session on the same resources (both sessions returning); proved from the simulation of C01 (the two sessions make the same tasks consistent, and a from-scratch session executes every task it makes consistent)',
+   C01_BINDERS + """  forall fuel fuel0 h ops, td_hist h -> td_only ops ->
+  let w := snd (run_history RC OC P always fuel init_world h) in
+  let ra := run_session RC OC P always fuel (new_session w) ops in
+  let rb := run_session RC OC P always fuel0 (new_session (fresh_of w)) ops in
+  Forall Sim.is_done (fst ra) -> Forall Sim.is_done (fst rb) ->
+  forall x, In x (execs (rev (trace (snd ra)))) -> In x (execs (rev (trace (snd rb))))""",
+   'intros gen wck RC OC P sf always HS HWF HC HW HOC. exact (incremental_executes_subset_all RC OC P always gen wck sf HS HWF HC HW HOC).'),
+]
